@@ -135,7 +135,7 @@ class C09(Prop):
     s = detsched.Scheduler(schedule=case["schedule"], step_limit=400000,
                            trace_files=[files["activeobject"]])
     try:
-      s.run(body)
+      detsched.guarded_run(s, body)
     except (detsched.Deadlock, detsched.StepLimit) as e:
       raise PropertyViolation("no quiescence: %s" % e, "C09:liveness")
     if s.thread_errors:
